@@ -418,6 +418,15 @@ func c06Run(r *ev.Run, c *mc.Ctx, wk *c06Worker, sc *c06Scenario, img []byte) c0
 		}
 		me := StateOf(locks, mypid)
 		inCall := h1.started && !h1.finished
+		if inCall && h1.locked && !me.SharedRead {
+			// "not there" is only believed when several more looks agree (a single look at a long, changing
+			// kernel lock list can skip an entry)
+			for i := 0; i < 5 && !me.SharedRead; i++ {
+				if l2, err := FileLocks(path); err == nil {
+					me = StateOf(l2, mypid)
+				}
+			}
+		}
 		if inCall && h1.locked {
 			if !me.SharedRead {
 				if strings.HasPrefix(after, "H2:") {
